@@ -53,6 +53,47 @@ class Program(object):
         self._callgraph = None
         self._callers = None
 
+    # ---------------------------------------------------------- macros
+    def macro(self, name, header='src/lib/zck_private.h'):
+        """Integer value of an object-like macro as seen by the configuration
+        (clang -E -dM on the private header), or None."""
+        if not hasattr(self, '_macros'):
+            self._macros = {}
+        if header not in self._macros:
+            import subprocess
+            import re
+            cmd = ['clang'] + frontend.flags(self.config) + ['-E', '-dM', frontend.repo_path(*header.split('/'))]
+            p = subprocess.run(cmd, stdout=subprocess.PIPE, stderr=subprocess.PIPE)
+            d = {}
+            for line in p.stdout.decode(errors='replace').splitlines():
+                m = re.match(r'#define\s+([A-Za-z_][A-Za-z0-9_]*)\s+(.+)$', line)
+                if m:
+                    d[m.group(1)] = m.group(2).strip()
+            self._macros[header] = d
+        d = self._macros[header]
+        v = d.get(name)
+        seen = 0
+        while v is not None and seen < 8:
+            try:
+                return int(v.rstrip('uUlL'), 0)
+            except ValueError:
+                pass
+            try:
+                import ast
+                import re as _re
+                expr = _re.sub(r'([A-Za-z_][A-Za-z0-9_]*)', lambda m: str(d.get(m.group(1), m.group(1))), v)
+                expr = _re.sub(r'(\d)[uUlL]+', r'\1', expr)
+                node = ast.parse(expr, mode='eval')
+                for n in ast.walk(node):
+                    if not isinstance(n, (ast.Expression, ast.BinOp, ast.UnaryOp, ast.Constant, ast.Add, ast.Sub,
+                                          ast.Mult, ast.FloorDiv, ast.Div, ast.USub, ast.LShift, ast.RShift)):
+                        return None
+                return int(eval(compile(node, '<macro>', 'eval')))
+            except Exception:
+                v = d.get(v)
+                seen += 1
+        return None
+
     # ---------------------------------------------------------- lookup
     def is_lib_unit(self, path):
         return 'src/lib/' in path
